@@ -57,6 +57,24 @@ def main():
                                type(e).__name__, str(e)[:200], os.path.relpath(inner, core.REPO), tb[-1].lineno,
                                os.path.basename(where.filename) if where else '?', where.lineno if where else 0))
             ctx.required_branches = []
+        missing = [b for b in ctx.required_branches if ctx.branches.get(b, 0) == 0]
+        if missing and not ctx.broken:
+            # the seeded generators did not reach every required branch: draw a second batch of cases from a
+            # derived seed (the rule "every required branch must be reached" is kept; a run that still misses one
+            # after the second batch ends as exit 2)
+            ctx2 = core.Ctx(prop, a.tier, seed + 1000003)
+            ctx2.scratch = scratch
+            mod.check(ctx2)
+            ctx.evaluations += ctx2.evaluations
+            ctx.distinct |= ctx2.distinct
+            ctx.traces += ctx2.traces
+            for k, v in ctx2.branches.items():
+                ctx.branches[k] = ctx.branches.get(k, 0) + v
+            ctx.failures.extend(ctx2.failures)
+            ctx.broken.extend(ctx2.broken)
+            ctx.notes.append('second batch of cases (seed %d) because the first did not reach %s'
+                             % (seed + 1000003, missing))
+            print('second batch of cases drawn: first batch did not reach %s' % missing)
         if ctx.broken and not ctx.failures and hasattr(mod, 'search'):
             print('proof/correspondence broken (%s); searching for a failing input ...'
                   % ', '.join(sorted({b['name'] for b in ctx.broken}))[:300])
